@@ -116,7 +116,9 @@ def definition_ranges(ctx):
         ctx.broken.append("build of the /repo binaries failed: " + out[-300:])
         return
     corpus = [{"main.oal": 'use "defs.oal" as d;\n\n\nlet local = num;\n\nres /x on get -> <{ \'a local,\n  \'b d.item }>;\n',
-               "defs.oal": "/* one long line */ let other = str; let item = { 'n num, 'm other };"}]
+               "defs.oal": "/* one long line */ let other = str; let item = { 'n num, 'm other };"},
+              # a definition that starts at the first byte of its module
+              {"main.oal": 'use "defs.oal" as d;\nres /x on get -> <d.item>;\n', "defs.oal": "let item = { 'n num };\nlet 😉 = 1;"[:23] + "\n"}]
     wss = corpus + [lspws.gen_workspace(ctx.rng) for _ in range(12 if ctx.thorough else 4)]
     for i, files in enumerate(wss):
         root = lspws.fresh_dir("c11_def_%d" % i)
@@ -148,6 +150,14 @@ def definition_ranges(ctx):
                             bad = "%s character %d beyond the %d UTF-16 units of line %d" % (end, ch, len(lines[ln].encode("utf-16-le")) // 2, ln)
                     if (rg["start"]["line"], rg["start"]["character"]) > (rg["end"]["line"], rg["end"]["character"]):
                         bad = "start after end"
+                    tgt = lspws.def_target(b, loc, u)
+                    if not bad and tgt is not None and b[tgt[0]]["spans"].get(tgt[1]) and got["uri"] == tgt[0]:
+                        sp = b[tgt[0]]["spans"][tgt[1]]["span"]
+                        want = lspws.rng_of(texts_[tgt[0]], sp[0], sp[1])
+                        if rg != want:
+                            ctx.violation("the location attached to a definition is not exactly the span of the defining construct",
+                                          {"files": files, "file": loc, "position": [line, col]}, want, rg)
+                            return
                     if bad:
                         ctx.violation("the location attached to a definition does not lie within the text of the module it names",
                                       {"files": files, "file": loc, "position": [line, col]}, "a range inside " + got["uri"].rsplit("/", 1)[1], {"range": rg, "problem": bad})
